@@ -89,14 +89,18 @@ harness! {
         vk::assume(rs::count_code(&raw.cells, rs::code(rs::side_white(&raw), rs::KING)) == 1);
         let m = any_rmove();
         let v = mirror_v(&raw);
-        assert!(rs::ref_well_formed(mv_v(m)) == rs::ref_well_formed(m));
+        // (the null move is a fixed tuple on square 0 and has no mirror image; it is never pseudo-legal)
+        if m.kind != 0 { assert!(rs::ref_well_formed(mv_v(m)) == rs::ref_well_formed(m)); }
         let p = rs::ref_pseudo(&raw, m);
         assert!(rs::ref_pseudo(&v, mv_v(m)) == p);
         if p {
             let w = ab::any_sq();
             let a = rs::ref_apply(&raw, m);
             let av = rs::ref_apply(&v, mv_v(m));
-            assert!(same_raw_at(&av, &mirror_v(&a), w));
+            // the move NUMBER is not mirror-covariant (it advances after Black's move and the mirror
+            // swaps the colours); the property does not ask for it
+            let mut ma = mirror_v(&a); ma.move_number = av.move_number;
+            assert!(same_raw_at(&av, &ma, w));
             assert!(rs::ref_legal(&v, mv_v(m)) == rs::ref_legal(&raw, m));
         }
         cover!(p && m.kind == rs::K_EP);
